@@ -211,6 +211,20 @@ def prepare_cli_case(case):
         # the file stores integer nanoseconds: the loaded stamp is float(ns)/1e9 (C07 decides that conversion)
         ns = [int(round(t * 1e9)) for t in ref[0]]
         ref = (np.array([float(v) for v in ns]) / 1e9, ref[1], ref[2])
+    if fmt == "bag":
+        # the bag stores sec/nanosec: what evo's reader returns is the data the tool works on (C06 decides that round trip)
+        from rosbags.rosbag1 import Reader
+        from evo.tools import file_interface
+        rd = Reader(files[1])
+        rd.open()
+        try:
+            lr, le = file_interface.read_bag_trajectory(rd, files[2]), file_interface.read_bag_trajectory(rd, files[3])
+        finally:
+            rd.close()
+        ref = (np.asarray(lr.timestamps), np.asarray(lr.positions_xyz), np.asarray(lr.orientations_quat_wxyz))
+        est = (np.asarray(le.timestamps), np.asarray(le.positions_xyz), np.asarray(le.orientations_quat_wxyz))
+        if np.any(np.diff(est[0]) <= 0) or np.any(np.diff(ref[0]) <= 0):
+            raise Skip("non-increasing stamps after the bag round trip")
     pl = c["opts"].get("plot") or {}
     cfg = pipeline.write_cfg(d, {"plot_trajectory_length_unit": pl["len_unit"]} if pl.get("len_unit") else None)
     return c, d, ref, est, files, cfg
@@ -277,7 +291,7 @@ def _check_cli_run_inner(run):
     if not os.path.exists(out_zip):
         raise Mismatch("evo_ape wrote no result archive", observed="no_archive")
     arch = cli.read_archive(out_zip)
-    arch["trajs"] = {"ref": _find(arch, files[1]), "est": _find(arch, files[2])}
+    arch["trajs"] = {"ref": _find(arch, files[2] if fmt == "bag" else files[1]), "est": _find(arch, files[3] if fmt == "bag" else files[2])}
     rsel, esel = exp
     sref, sest = pipeline.check_alignment_stage(c, arch, ref, est, rsel, esel, "ape")
     # S7: stored values are the definition applied to the stored processed pairs
@@ -386,7 +400,7 @@ _st_cli_opts = (
 
 @st.composite
 def st_cli(draw, force_plot=False, force_crop=False, plain=False):
-    fmt = draw(st.sampled_from(["tum", "tum", "euroc", "kitti"]))
+    fmt = draw(st.sampled_from(["tum", "tum", "euroc", "kitti", "tum", "euroc", "kitti", "bag"]))
     data = draw(st_data)
     case = _mk_cli_case(fmt, data, *[draw(x) for x in _st_cli_opts])
     if plain:
